@@ -109,7 +109,7 @@ def drive_storage(case, sh, state):
     from windpyutils.parallel.storage import TextFileStorage
     import random
     ctx = multiprocessing.get_context("fork")
-    d = os.path.join(os.path.dirname(sh.logpath), "stor")
+    d = os.path.join(os.path.dirname(sh.logpath), "stor[1]*")         # a directory name is just a name (no pattern)
     shutil.rmtree(d, ignore_errors=True)        # nothing of an earlier run in the same scratch directory
     os.makedirs(d)
     state["phase"] = "setup"
@@ -241,9 +241,19 @@ def drive_storage(case, sh, state):
         final["iter_after_late"] = safe(lambda: list(st))
         final["late_id"] = g
     st.close()
+    comp = None
+    if case.get("companion_storage"):
+        # a second, independent storage in the same directory whose prefix starts like the first one's
+        comp = TextFileStorage(d, "storage_more")
+        comp[0] = "text of the companion storage"
+        comp.close()
     state["phase"] = "flush"
     final["flush"] = safe(lambda: st.flush())
-    final["files_after_flush"] = sorted(os.listdir(d))
+    final["files_after_flush"] = sorted(f for f in os.listdir(d) if not f.startswith("storage_more_"))
+    if comp is not None:
+        final["companion_after_flush"] = safe(lambda: comp[0])
+        comp.close()
+        safe(lambda: comp.flush())
     final["len_after_flush"] = safe(lambda: len(st))
     final["iter_after_flush"] = safe(lambda: list(st))
     final["read_after_flush"] = safe(lambda: st[universe[0]])
@@ -408,6 +418,9 @@ def storage_findings(case, result):
         else:
             if fin.get("files_after_flush"):
                 out.append(("flush-leaves-files", f"files after flush(): {fin['files_after_flush']}"))
+            if "companion_after_flush" in fin and fin["companion_after_flush"] != ["ok", "text of the companion storage"]:
+                out.append(("flush-touches-other-storage", f"after flush() a second storage in the same directory (prefix 'storage_more') reads "
+                            f"{_short(fin['companion_after_flush'])}"))
             if fin.get("len_after_flush") != ["ok", 0] or fin.get("iter_after_flush") != ["ok", []]:
                 out.append(("flush-does-not-reset", f"after flush(): len {fin.get('len_after_flush')}, iteration "
                             f"{fin.get('iter_after_flush')}"))
